@@ -55,6 +55,12 @@ impl C01 {
                 let nq = queries.len() as u64;
                 own.push(OwnSet { l, name: format!("own:{}:T<={}xQ<={}", name, t - shrink, q - shrink), titles: Titles::Chars { fam, lo: 0, hi: t - shrink }, queries, block: (60_000 / nq).clamp(1, 500) });
             }
+            if tier == Tier::Thorough || matches!(l, L::None | L::De | L::Ru) {
+                let ex = exotic();
+                let queries = all_strings(&ex, 0, 2);
+                let nq = queries.len() as u64;
+                own.push(OwnSet { l, name: "own:exotic28:T<=2xQ<=2".into(), titles: Titles::Chars { fam: ex, lo: 0, hi: 2 }, queries, block: (60_000 / nq).clamp(1, 500) });
+            }
             let lex = lex_strings(l);
             let queries = word_queries(&lex, 2);
             let nq = queries.len() as u64;
@@ -74,23 +80,28 @@ impl C01 {
             let d = p.doms();
             subs.push((id, p, d));
         };
-        add("C03", Box::new(c03::C03::new(Tier::Quick)));
         add("C10", Box::new(c10::C10::new(Tier::Quick)));
         add("C11", Box::new(c11::C11::new(Tier::Quick)));
         add("C12", Box::new(c12::C12::new(Tier::Quick)));
-        add("C13", Box::new(c13::C13::new(Tier::Quick)));
-        add("C14", Box::new(c14::C14::new(Tier::Quick)));
         add("C20", Box::new(c20::C20::new(Tier::Quick)));
         #[cfg(lucid_suggest_verif)]
         {
             // direct-drive domains: no hit lists to digest, so they run in the checked build only
             add("C15", Box::new(c15::C15::with_bound(tier.pick(5, 6))));
-            add("C18", Box::new(c18::C18::new(Tier::Quick)));
+            if tier == Tier::Thorough {
+                // in the quick tier the index is driven through C19's copy of these add-sequences
+                add("C18", Box::new(c18::C18::new(Tier::Quick)));
+            }
             add("C16", Box::new(c16::C16::new(Tier::Quick)));
             add("C17", Box::new(c17::C17::with_bound(tier.pick(5, 6))));
             add("C19", Box::new(c19::C19::new(Tier::Quick)));
         }
         if tier == Tier::Thorough {
+            // C03, C04, C13, C14 report panics themselves ("record not returned"); here they add the
+            // checked-vs-shipping digest comparison over their domains
+            add("C03", Box::new(c03::C03::new(Tier::Quick)));
+            add("C13", Box::new(c13::C13::new(Tier::Quick)));
+            add("C14", Box::new(c14::C14::new(Tier::Quick)));
             add("C02", Box::new(c02::C02::new(Tier::Quick)));
             add("C04", Box::new(c04::C04::new(Tier::Quick)));
             add("C05", Box::new(c05::C05::new(Tier::Quick)));
@@ -99,7 +110,7 @@ impl C01 {
             add("C08", Box::new(c08::C08::new(Tier::Quick)));
             add("C09", Box::new(c09::C09::new(Tier::Quick)));
         } else {
-            deferred = vec!["C02", "C04", "C05", "C06", "C07", "C08", "C09"];
+            deferred = vec!["C02", "C03", "C04", "C05", "C06", "C07", "C08", "C09", "C13", "C14"];
         }
         let mut map = Vec::new();
         let mut doms = Vec::new();
@@ -141,7 +152,9 @@ impl Prop for C01 {
                 let s = sym(l);
                 let (mv, mc) = (s.v.to_string(), s.c.to_string());
                 let cfgs: [(usize, (&str, &str), usize); 5] = [(10, ("[", "]"), 0), (1, ("<b>", "</b>"), (1 << 31) - 1), (65536, (&mv, &mc), 5), (0, ("", ""), 1), (2, ("", ""), 2)];
-                for (limit, markers, rating) in cfgs {
+                // quick tier: three of the five configurations (default, limit 1 with long markers and the top rating, limit 0)
+                let ncfg = self.tier.pick(3, 5);
+                for (limit, markers, rating) in [cfgs[0], cfgs[1], cfgs[3], cfgs[2], cfgs[4]].into_iter().take(ncfg) {
                     let recs = vec![rec(10, &title, rating)];
                     let Ok(mut st) = cx.build(l, &recs, Some(limit), Some(markers)) else { return };
                     cx.state();
@@ -181,7 +194,7 @@ impl Prop for C01 {
     }
     fn rule(&self) -> String {
         format!(
-            "(i) own sweep: every title up to the bound over six character families and the word-level lexicon, as a one-record store under five (limit, markers, rating) configurations incl. limit 0 / 1 / 65536, empty and title-character markers, rating 2^31-1, x every query up to the bound; (ii) own history search (BFS, no clear) over adds of awkward records, limit / marker changes and searches; (iii) the complete domains of the checks {:?} at their quick bounds, re-run with their oracles muted. Every unwinding panic, process abort or confirmed time-out is a violation; the whole run is repeated in the shipping build (guard off, no overflow / debug checks) and the per-block digests of all hit lists must agree. Deferred to the thorough tier: {:?}. Non-trivial = own-sweep searches returning at least one hit (counted by the sweep itself).",
+            "(i) own sweep: every title up to the bound over six character families and the word-level lexicon, as a one-record store under three (quick) / five (thorough) (limit, markers, rating) configurations - limit 10 / 1 / 0, thorough also 65536 / 2, bracket / long / empty / title-character markers, rating 0 / 2^31-1 - x every query up to the bound; (ii) own history search (BFS, no clear) over adds of awkward records, limit / marker changes and searches; (iii) the complete domains of the checks {:?} at their quick bounds, re-run with their oracles muted. Every unwinding panic, process abort or confirmed time-out is a violation; the whole run is repeated in the shipping build (guard off, no overflow / debug checks) and the per-block digests of all hit lists must agree. Deferred to the thorough tier: {:?}. Non-trivial = own-sweep searches returning at least one hit (counted by the sweep itself).",
             self.subs.iter().map(|s| s.0).collect::<Vec<_>>(),
             self.deferred
         )
